@@ -505,6 +505,14 @@ func init() {
 				regReplay(ctx, "equal_identities_share_one_scope_distinct_never_merge")
 				return
 			}
+			var sc c05StormCase
+			if json.Unmarshal(ctx.Replay, &sc) == nil && sc.IdentityStorm {
+				ctx.Case(sc, "", "uncontrolled-identity-storm-rounds", "")
+				for k := 0; k < 5 && len(ctx.Res.Failures) == 0; k++ {
+					c05IdentityStorm(ctx, sc.First, sc.Rounds, sc.Iters)
+				}
+				return
+			}
 			var fu c05FirstUseCase
 			if json.Unmarshal(ctx.Replay, &fu) == nil && fu.Mode == "first-use" {
 				for k := 0; k < 3 && len(ctx.Res.Failures) == 0; k++ {
@@ -567,6 +575,8 @@ func init() {
 		regCrossStream(ctx, ctx.N(150, 3000), "equal_identities_share_one_scope_distinct_never_merge")
 		// the same metric also when the two requests come from two goroutines at once
 		c05FirstUseStream(ctx, ctx.N(120, 3000))
+		// different identities derived from one parent by several goroutines at once (uncontrolled)
+		c05IdentityStorm(ctx, int(ctx.Seed%7)*3, ctx.N(120, 1200), ctx.N(400, 1000))
 		ctx.Note("streams: main (delimiter-free, non-empty keys, sanitizer-fixed inputs), empty-key (F05a witnesses; cases on which the tree deviates from the canonical key are reported as the finding and withheld from the model, which describes the repaired writer), delims (F05b witnesses; the model reproduces the merge)")
 		_ = fmt.Sprint
 	}
